@@ -191,20 +191,28 @@ theorem aeskw_wrap_then_unwrap (P : Prims) (hkw : KwLaw P) (name : String) (klen
 
 /-- what AES-GCM key wrapping stores: a fresh 12-byte IV from the random stream, `encrypted_key` and `tag`
     = AES-GCM (no associated data) of exactly the CEK's bytes under exactly the key's `k`; IV and tag go into
-    the per-recipient header -/
+    the per-recipient header — and (after fix `F28`) wrapping succeeds only if neither the protected nor the
+    shared unprotected header already defines `iv` or `tag`, which would hide the recorded ones -/
 theorem wrp_gcmkw_spec (P : Prims) (name : String) (klen fuel : Nat) (jwe jwk cek jwe' cek' : Json)
     (rkvs : List (String × Json)) (rnd : Bs) (hf : wrapFamily name = some (.gcmkw klen))
     (h : wrp P (fuel + 1) name jwe (.obj rkvs) jwk cek rnd = some (jwe', cek')) :
+    (sharedHdrHas jwe "iv" = false ∧ sharedHdrHas jwe "tag" = false) ∧
     ∃ kek pt iv hkv, exactKey jwk "k" klen = some kek ∧ bytesOfJson (cek'.get? "k") = some pt ∧ iv.length ≤ 12 ∧
       (match lookup "header" rkvs with | none => some [] | some (.obj hh) => some hh | some _ => none) = some hkv ∧
       addEntity jwe (some (.obj (setKV "encrypted_key" (B64.enc (P.gcmEnc kek iv [] pt).1)
         (setKV "header" (.obj (setKV "tag" (B64.enc (P.gcmEnc kek iv [] pt).2) (setKV "iv" (B64.enc iv) hkv))) rkvs))))
         "recipients" RCPKEYS = some jwe' := by
-  simp only [wrp, hf, Option.bind_eq_some_iff] at h
-  obtain ⟨⟨c1, r1⟩, hgen, pt, hpt, kek, hk, hkv, hh, hrest⟩ := h
-  simp only [Option.map_eq_some_iff, Prod.mk.injEq] at hrest
-  obtain ⟨j, hadd, rfl, rfl⟩ := hrest
-  exact ⟨kek, pt, r1.take 12, hkv, hk, hpt, by simp [List.length_take]; omega, hh, hadd⟩
+  simp only [wrp, hf] at h
+  split at h
+  · simp at h
+  · rename_i hsh
+    simp only [Bool.or_eq_true, not_or, Bool.not_eq_true] at hsh
+    refine ⟨hsh, ?_⟩
+    simp only [Option.bind_eq_some_iff] at h
+    obtain ⟨⟨c1, r1⟩, hgen, pt, hpt, kek, hk, hkv, hh, hrest⟩ := h
+    simp only [Option.map_eq_some_iff, Prod.mk.injEq] at hrest
+    obtain ⟨j, hadd, rfl, rfl⟩ := hrest
+    exact ⟨kek, pt, r1.take 12, hkv, hk, hpt, by simp [List.length_take]; omega, hh, hadd⟩
 
 /-- **C04 (key management round trip, AES-GCM key wrap).**  If the merged header the unwrapper sees shows the
     IV and tag the wrapper put into the per-recipient header (i.e. no more trusted header defines `iv`/`tag`),
